@@ -311,7 +311,7 @@ type LevelKnobs struct {
 	BlockCache  int
 }
 
-var Knobs = LevelKnobs{WriteBuffer: 64 << 10, BlockCache: 64 << 10}
+var Knobs = LevelKnobs{WriteBuffer: 1 << 20, BlockCache: 64 << 10}
 
 // OpenLevelDB is the rewrite target of leveldb.OpenFile(path, opts): the repository's own
 // options are passed through, except pure size knobs and background table compaction
